@@ -11,6 +11,7 @@ import ZConfig.matcher
 import ZConfig.schema
 import ZConfig.url
 from ZConfig.loader import CompositeHandler
+from ZConfig.loader import _url_from_file
 from ZConfig.loader import SchemaLoader
 
 
